@@ -549,7 +549,7 @@ def run_S3(ctx, case):
         for i in range(K):
             d, s_ = dst[i], src[i]; cd = sel(chain, d) + 1; cs = z3.If(s_ != d, sel(chain, s_) + 1, z3.BitVecVal(0, 32)); nv = z3.If(cd > cs, cd, cs)
             chain = [z3.If(z3.And(i < n, d == k), nv, chain[k]) for k in range(8)]
-        if 'addr' not in seen or 'size' not in seen: q.n += 1; q.sat += 1; q.failed.append(('setAddressRegister / setSize not called', {})); return
+        if 'addr' not in seen or 'size' not in seen: q.inconclusive.append('setAddressRegister / setSize not called on this path: how the result is recorded is not recognised by this harness'); return
         a = bv(seen['addr'], 32)
         q.prove(pc, z3.And(a >= 0, a < 8), 'the address register is one of r0..r7')
         q.prove(pc, z3.And([sel(chain, a) >= chain[k] for k in range(8)]), 'the address register has the longest dependency chain of the program (spec 7.3 step 6)')
